@@ -45,6 +45,35 @@ class CallableObject:
         return self.fn(task_id)
 
 
+class FalsyCallable(list):
+    """A callable that is falsy (an empty list subclass with __call__, e.g. a hook registry)."""
+
+    def __init__(self, fn: Any) -> None:
+        super().__init__()
+        self.fn = fn
+
+    def __call__(self, task_id: Any) -> Any:
+        return self.fn(task_id)
+
+
+class AnyEq:
+    """An element that compares equal to everything (like unittest.mock.ANY)."""
+
+    def __init__(self, tag: str) -> None:
+        self.tag = tag
+
+    def __eq__(self, other: Any) -> bool:
+        return True
+
+    def __ne__(self, other: Any) -> bool:
+        return False
+
+    __hash__ = None  # type: ignore[assignment]
+
+    def __repr__(self) -> str:
+        return f"<AnyEq {self.tag}>"
+
+
 class StrMapping:
     """A mapping that is no dict (func(**x) must work for any mapping with string keys)."""
 
@@ -510,6 +539,8 @@ class World:
             return functools.partial(scb)
         if spec.get("obj"):
             return CallableObject(scb)
+        if spec.get("falsy"):
+            return FalsyCallable(scb)
         return scb
 
     def cb_probe(self, kind: str, tm: TaskM) -> None:
@@ -551,7 +582,7 @@ class World:
             shape = shapes[j % len(shapes)]
             if kind == "map":
                 # any object is an element: tuples, lists, dicts, strings, None
-                elems.append([("m", s, j), ["m", s, j], {"s": s, "j": j}, f"r{rm.rid}e{j}", None][shape % 5])
+                elems.append([("m", s, j), ["m", s, j], {"s": s, "j": j}, f"r{rm.rid}e{j}", None, AnyEq(f"r{rm.rid}e{j}"), 0][shape % 7])
             elif kind == "starmap":
                 # func(*x) for any iterable x: a dict contributes its keys, a string its characters
                 elems.append([("m", s, j), ["m", s], {s: 1, Sentinel(f"r{rm.rid}f{j}"): 2}, "ab", ()][shape % 5])
